@@ -334,9 +334,9 @@ pub fn check_case(ctx: &mut Ctx, case: &Case, cfg: &Cfg, props: &[String], want_
             rec["marks"] = pm["marks"].clone();
             rec["nplain"] = pm["nplain"].clone();
             rec["idents"] = pm.get("idents").cloned().unwrap_or(json!([]));
-            rec["regions"] = Value::Array(pm["regions"].as_array().map(|v| v.iter().map(|rg| json!([cp(rg[0].as_u64().unwrap() as usize), cp(rg[1].as_u64().unwrap() as usize)])).collect()).unwrap_or_default());
+            rec["regions"] = Value::Array(pm["regions"].as_array().map(|v| v.iter().map(|rg| json!([cp(rg[0].as_u64().unwrap() as usize), cp(rg[1].as_u64().unwrap() as usize), rg.get(2).and_then(|x| x.as_bool()).unwrap_or(false)])).collect()).unwrap_or_default());
         } else {
-            rec["regions"] = Value::Array(crate::toggle::regions(text, &tin).iter().map(|(s, e)| json!([cp(*s), cp(*e)])).collect());
+            rec["regions"] = Value::Array(crate::toggle::regions(text, &tin).iter().map(|(s, e, open)| json!([cp(*s), cp(*e), open])).collect());
         }
         let asm: Vec<usize> = stages(&base.events)
             .iter()
@@ -504,8 +504,11 @@ pub fn check_case(ctx: &mut Ctx, case: &Case, cfg: &Cfg, props: &[String], want_
         if has(props, "C07") {
             for rg in pm["regions"].as_array().unwrap() {
                 let (s, e) = (rg[0].as_u64().unwrap() as usize, rg[1].as_u64().unwrap() as usize);
+                let open = rg.get(2).and_then(|x| x.as_bool()).unwrap_or(false);
                 bump(&mut res, "C07");
-                if !out.contains(&text[s..e]) {
+                // an unclosed region runs to the end of the input and is the end of the output
+                let kept = if open { out.ends_with(&text[s..e]) } else { out.contains(&text[s..e]) };
+                if !kept {
                     let is_asm = case.label.starts_with("asm#");
                     let site = if is_asm && text[s..e].to_ascii_lowercase().contains("{$if") { " [site: conditional directive inside an asm instruction line]" } else { "" };
                     res.viols.push(Viol { prop: "C07", clause: "region_verbatim", detail: format!("region {:?} is not reproduced byte for byte{site}", &text[s..e]) });
@@ -517,9 +520,10 @@ pub fn check_case(ctx: &mut Ctx, case: &Case, cfg: &Cfg, props: &[String], want_
         // every region computed by the specification's toggle recogniser from the scanned input
         let regs = crate::toggle::regions(text, &tin);
         let mut from = 0usize;
-        for (s, e) in &regs {
+        for (s, e, open) in &regs {
             bump(&mut res, "C07");
-            match out[from..].find(&text[*s..*e]) {
+            let found = if *open { if out[from..].ends_with(&text[*s..*e]) { Some(out.len() - from - (e - s)) } else { None } } else { out[from..].find(&text[*s..*e]) };
+            match found {
                 Some(p) => from += p + (e - s),
                 None => {
                     res.viols.push(Viol { prop: "C07", clause: "region_verbatim", detail: format!("region {:?} is not reproduced byte for byte (in order)", crate::mon::context(text, *s)) });
